@@ -613,10 +613,39 @@ Proof.
   - apply Nat.eqb_eq in E; subst. rewrite IH, Ea. reflexivity.
 Qed.
 
+(* dimension tables rebuilt by _copywith(dimensions=False) + copyDimension(dimlen=...) keep keys and flags *)
+Lemma relen_lookup g : forall T T1, relen T g = Ok T1 ->
+  forall k, match lookup k T with
+            | Some (n, u) => exists n', lookup k T1 = Some (n', u)
+            | None => lookup k T1 = None end.
+Proof.
+  unfold relen. induction T as [|[a [n u]] T IH]; simpl; intros T1 H k.
+  - inv H. reflexivity.
+  - bindinv H. bindinv E. inv E. bindinv H. inv H. simpl.
+    destruct (Nat.eqb k a); [eauto|]. apply IH. exact E.
+Qed.
+Lemma unlim_ext2 T T' :
+  (forall k n u, lookup k T = Some (n, u) -> lookup k T' = None \/ exists n', lookup k T' = Some (n', u)) ->
+  unlim_keptb T T' = true.
+Proof.
+  intros H. unfold unlim_keptb. apply forallb_forall. intros p _.
+  destruct (lookup (fst p) T) as [[n u]|] eqn:E; [|reflexivity].
+  destruct (H _ _ _ E) as [-> | [n' ->]]; [reflexivity|apply eqb_reflx].
+Qed.
+Lemma relen_unlim g T T1 : relen T g = Ok T1 -> unlim_keptb T T1 = true.
+Proof.
+  intros H. apply unlim_ext2. intros k n u Hk. pose proof (relen_lookup g _ _ H k) as L. rewrite Hk in L. right. exact L.
+Qed.
+Lemma apply_unlim f fs f' : impl_apply f fs = Ok f' -> unlim_keptb (fdims f) (fdims f') = true.
+Proof.
+  unfold impl_apply. intros H. bindinv H. bindinv H. bindinv H. inv H. simpl. eapply relen_unlim; eauto.
+Qed.
+
 Theorem step_unlimited f o f' :
   step f o = Ok f' ->
   match o with
-  | ORenameDim _ | OInsert _ _ _ _ _ _ | ORemove _ => true
+  | ORenameDim _ | OInsert _ _ _ _ _ _ | ORemove _ | OApply _ | OInterp _ _ => true
+  | OSlice ss => slice_unl_ok f ss
   | _ => keeps_table o
   end = true ->
   unlim_kept_op o (fdims f) (fdims f') = true.
@@ -639,4 +668,18 @@ Proof.
     unfold impl_remove in H. bindinv H. inv H. simpl. apply unlim_ext. intros k x Hk.
     rewrite (lookup_filter_key (fun d => negb (memb d (removed_dims (fdims f) dk)))).
     destruct (negb (memb k (removed_dims (fdims f) dk))); auto.
+  - (* sliceDimensions *)
+    unfold impl_slice in H.
+    match type of H with (if ?c then _ else _) = _ => destruct c; [discriminate|] end.
+    bindinv H. bindinv H. bindinv H. inv H. simpl.
+    apply unlim_ext2. intros k n u Hk. pose proof (relen_lookup _ _ _ E0 k) as L. rewrite Hk in L. destruct L as [n' L].
+    unfold slice_unl_ok in K.
+    destruct (Nat.ltb 1 (length (filter (fun p => is_arr (snd p)) ss))) eqn:AA; simpl in K; [|right; eauto].
+    rewrite lookup_aset. destruct (Nat.eqb k n_points) eqn:Ek; [|right; eauto].
+    apply Nat.eqb_eq in Ek. subst k. rewrite Hk in K. destruct u; [discriminate|]. right. eauto.
+  - (* applyAlongDimensions *)
+    eapply apply_unlim; eauto.
+  - (* interpDimension *)
+    unfold impl_interp in H. destruct (lookup d (fvars f)) as [v|]; [|discriminate].
+    destruct (vshape v) as [|x [|y l]]; try discriminate. eapply apply_unlim; eauto.
 Qed.
